@@ -559,6 +559,34 @@ func run(c *runner.Ctx) {
 		}
 		compare(c, cs.v, fmt.Sprintf("named#%d %s", i, cs.desc), &nt, cs.outer)
 	}
+	// the same objects, each right after a call whose walk was abandoned *behind a marker* by a caller-supplied function
+	// that panics (the caller recovers), and after a call that was refused before any walk: the next call starts afresh
+	c.Space(pfx + "named/after-an-abandoned-walk")
+	boom := func(errBuf *strings.Builder, validName, objName, fieldName string, tv reflect.Value) {
+		var m map[string]int
+		m[fieldName] = 1
+	}
+	for i, cs := range namedCases() {
+		if !c.Take() {
+			continue
+		}
+		for _, how := range []string{"marker then function", "function inside a sub-object", "refused"} {
+			func() {
+				defer func() { _ = recover() }()
+				switch how {
+				case "marker then function":
+					_ = valid.StructForFns(&Parent{Name: "n", M: Mid{L: leafOK}, PM: &Mid{}}, valid.RM{"M": "required,boom", "PM": "exist,boom"}, valid.Name2FnMap{"boom": boom})
+				case "function inside a sub-object":
+					_ = valid.NewVStruct().SetValidFn("boom", boom).SetRule(valid.RM{"N": "boom"}, Mid{}).Valid(&Parent{Name: "n", M: Mid{L: leafOK, N: 1}})
+				default:
+					n := 5
+					_ = valid.Struct(&n)
+					_ = valid.Struct("abc", valid.RM{"M": "exist"})
+				}
+			}()
+			compare(c, cs.v, fmt.Sprintf("named#%d %s [right after: %s]", i, cs.desc, how), &nt, cs.outer)
+		}
+	}
 }
 
 // Cart: fields whose rule is a call-supplied function with a name that merely starts like one of the two markers.
@@ -725,6 +753,15 @@ func chain(depth int, via string) *Chain {
 	return root
 }
 
+// Batch: collections that can hold thousands of sub-objects, followed by more fields that hold sub-objects.
+type Batch struct {
+	ByID map[int]*Chain    `valid:"exist"`
+	Rows []*Chain          `valid:"exist"`
+	Tail map[string]*Chain `valid:"exist"`
+	Last *Chain            `valid:"exist"`
+	Arr  [3]Chain          `valid:"required"`
+}
+
 type namedCase struct {
 	v     interface{}
 	desc  string
@@ -794,6 +831,24 @@ func namedCases() []namedCase {
 		}
 		out = append(out, namedCase{v: w.Addr().Interface(), desc: fmt.Sprintf("struct with %d fields, marked sub-objects at every fifth index", n)})
 	}
+	// large volumes of violations (round 12): thousands of violating sub-objects - 4 KB to 1 MB of clauses - followed by
+	// further collections and single sub-objects; how much has been reported already changes nothing about what is reached
+	for _, n := range []int{100, 1000, 1500, 3000, 25000} {
+		rows := make([]*Chain, n)
+		for i := range rows {
+			rows[i] = &Chain{}
+		}
+		byID := map[int]*Chain{}
+		for i := 0; i < n; i += 7 {
+			byID[i] = &Chain{Kids: []*Chain{{}}}
+		}
+		b := &Batch{Rows: rows, Tail: map[string]*Chain{"last": {}}, Last: &Chain{}, Arr: [3]Chain{{V: "ok"}, {}, {}}}
+		out = append(out, namedCase{v: b, desc: fmt.Sprintf("Batch with %d violating rows, then a one-entry map, a pointer and an array", n)},
+			namedCase{v: rows, desc: fmt.Sprintf("[]*Chain with %d violating elements", n)},
+			namedCase{v: []*Batch{b, {Last: &Chain{}}, nil, {Tail: map[string]*Chain{"k": {}}}}, desc: fmt.Sprintf("[]*Batch whose first element has %d violating rows", n)},
+			namedCase{v: &Batch{ByID: byID, Rows: rows[:3], Last: &Chain{}}, desc: fmt.Sprintf("Batch with a map of %d violating entries first", len(byID))},
+			namedCase{v: map[string]*Batch{"only": b}, desc: fmt.Sprintf("map[string]*Batch, %d violating rows", n)})
+	}
 	add("unmarked only", Parent{Name: "n", M: okMid, UM: &badMid, AM: [2]*Mid{&okMid, &okMid}, MM: map[string]*Mid{"a": &okMid}, Embedded: Embedded{"e"}})
 	return out
 }
@@ -802,7 +857,7 @@ func main() {
 	runner.Main(runner.Config{
 		Property:  "C04",
 		Technique: "bounded-exhaustive enumeration of acyclic object graphs (container grammar, depth<=3) vs walk reference model (expected clause/path list)",
-		Rule: "types: 19 containers of Leaf {T,*T,**T,[]T,[]*T,[]**T,[2]T,[2]*T,map[string]T,map[string]*T,map[int]*T,map[bool]T,map[int32]**T,map[float64]*T,map[struct]T,map[interface{}]*T,map[[2]int]T,map[uint8]T,map[struct{A,B string}]*T; NaN keys, distinct keys that print the same} x marks {required, exist, none, 'required,exist', 'exist,required', 'exist,exist'} as one or two fields, on slices also with size rules before / after the marker ('required,le=1', 'exist,le=1,ge=1', 'le=1,required', 'required,ge=3|m3,le=1|m1', 'ge=3,exist,le=1'; Leaf's own fields carry two rules each) (+unexported incl. names starting with '_' / a CJK or non-ASCII lower-case letter, time.Time, unmarked extras), " +
+		Rule: "(round 12: named objects with 100 ... 25 000 violating sub-objects - up to 1 MB of clauses - followed by further collections, pointers and arrays; every named object again right after a walk abandoned behind a marker by a panicking caller-supplied function, after one abandoned inside a sub-object, and after calls refused before any walk) types: 19 containers of Leaf {T,*T,**T,[]T,[]*T,[]**T,[2]T,[2]*T,map[string]T,map[string]*T,map[int]*T,map[bool]T,map[int32]**T,map[float64]*T,map[struct]T,map[interface{}]*T,map[[2]int]T,map[uint8]T,map[struct{A,B string}]*T; NaN keys, distinct keys that print the same} x marks {required, exist, none, 'required,exist', 'exist,required', 'exist,exist'} as one or two fields, on slices also with size rules before / after the marker ('required,le=1', 'exist,le=1,ge=1', 'le=1,required', 'required,ge=3|m3,le=1|m1', 'ge=3,exist,le=1'; Leaf's own fields carry two rules each) (+unexported incl. names starting with '_' / a CJK or non-ASCII lower-case letter, time.Time, unmarked extras), " +
 			"nested once more through every container of Mid (depth 3; thorough: unmarked outer fields too, and a depth-4 space over 8 container kinds per level); values: nil / zero / valid / violating nodes, collections of length 0..2 with every mix; top-level input T,*T,**T,[]T,[]*T,[2]T,map[string]*T,map[int]T; " +
 			"plus a named Parent/Mid/Leaf family structs with up to 130 fields, and self-referential chains to depth 200 through pointers, slices and maps; a Cart type whose slice / pointer / value / map fields carry call-supplied functions under names that merely start like a marker (required_with, exists_in_book, requiredx, existing, exist_, required2) next to real markers; Leaf = {required, to=1~3, either group of two}; expected clauses from the walk model: field clauses compared in order (as a multiset when a map with >=2 entries is iterated), group clauses (reported after the walk, path-qualified per sub-object) after them as a multiset; non-trivial = a violation at depth>=2",
 		Assumptions: []string{"acyclic graphs only (statement)", "walk model internal/walk"},
